@@ -15,14 +15,15 @@ getcontext().prec = 50
 
 ID = "C19"
 RULE = ("parameter points: exponential a in (0.01,5], poisson mean in (0.05,30] (k<=120), power law alpha in [2,6], "
-        "cut-off power law alpha in [2,6] x kappa in [0.5,500]; grids (incl. alpha=2, large kappa) + seeded random; "
+        "cut-off power law alpha in [2,6] x kappa in [0.5,500]; grids (incl. alpha=2, large kappa) + seeded random; plus call histories: 4..8 callables created up front with near-equal, integer and repeated "
+        "parameters and evaluated interleaved; "
         "one case = one parameter point evaluated over its whole summed support; every point is non-trivial; "
         "distinct = SHA-1 of (distribution, parameters)")
 ASSUMPTIONS = ["oracle: 50-digit decimal closed forms; zeta/polylog by direct summation + Euler-Maclaurin tail",
                "tolerance for power laws = 1.5 * (mass of all series terms below 1e-6) / exact normaliser + 1e-12; closed forms 1e-12 relative",
                "Poisson evaluated for k <= 120 only (float overflow of k! beyond 170 is outside what is asserted)"]
-HEADLINE = ["points", "pointwise_decimal_checks", "pointwise_float_checks", "normalisation_checks", "exponential", "poisson", "power_law", "scale_free_cut_off"]
-REQUIRED = {t: {"exponential": 5, "poisson": 5, "power_law": 5, "scale_free_cut_off": 5, "normalisation_checks": 20}
+HEADLINE = ["points", "pointwise_decimal_checks", "pointwise_float_checks", "normalisation_checks", "exponential", "poisson", "power_law", "scale_free_cut_off", "history_callables", "history_evaluations"]
+REQUIRED = {t: {"exponential": 5, "poisson": 5, "power_law": 5, "scale_free_cut_off": 5, "normalisation_checks": 20, "history_evaluations": 200}
             for t in ("quick", "thorough")}
 TOL_SERIES = 1e-6
 KMAX_POWER = 10000
@@ -41,6 +42,10 @@ def gen_cases(tier, seed):
     grid = [(2.0, 500.0), (2.0, 0.5), (6.0, 500.0), (3.0, 10.0), (2.5, 100.0), (2.0, 50.0)]
     for al, ka in grid + [(rng.uniform(2, 6), math.exp(rng.uniform(math.log(0.5), math.log(500)))) for _ in range(n - 6)]:
         cases.append({"dist": "scale_free_cut_off", "params": [al, ka], "_cost": 3})
+    # call histories: many callables created up front (near-equal parameters, ints, repeats), evaluated interleaved
+    nh = 8 if tier == "quick" else 200
+    for i in range(nh):
+        cases.append({"dist": "history", "params": [seed * 100379 + i], "_cost": 4})
     return cases
 
 
@@ -191,8 +196,69 @@ def check_point(res, dist, params):
     raise ValueError(dist)
 
 
+def run_history(res, seed):
+    """factories called in sequence, the returned callables evaluated interleaved: a value must not depend on which other
+    distributions were created or evaluated before (the closures share nothing)"""
+    import gcmpy
+    rng = random.Random(seed)
+    objs = []
+    for _ in range(rng.randint(4, 8)):
+        dist = rng.choice(["exponential", "poisson", "power_law", "scale_free_cut_off"])
+        if dist == "exponential":
+            par = [rng.choice([0.5, 0.5000001, 1, 1.0, rng.uniform(0.01, 5)])]
+        elif dist == "poisson":
+            par = [rng.choice([2, 2.0, 2.0000001, 7.3, rng.uniform(0.05, 30)])]
+        elif dist == "power_law":
+            par = [rng.choice([2, 2.0, 2.0000001, 2.5, 3, rng.uniform(2, 6)])]
+        else:
+            par = [rng.choice([2, 2.0, 2.5, rng.uniform(2, 6)]), rng.choice([5, 5.0, 5.0000001, 50.0, rng.uniform(0.5, 500)])]
+        objs.append((dist, par, sut(f"{dist}{tuple(par)}", getattr(gcmpy, dist), *par)))
+    res.count("history_callables", len(objs))
+    exact = {}
+    for _ in range(60):
+        dist, par, p = rng.choice(objs)
+        k = rng.randint(0 if dist in ("exponential", "poisson") else 1, 40)
+        v = float(sut(f"{dist}{tuple(par)}({k})", p, k))
+        key = (dist, tuple(float(x) for x in par))
+        if key not in exact:
+            if dist == "exponential":
+                a = D(float(par[0])); exact[key] = (lambda kk, a=a: (1 - (-a).exp()) * (-a * kk).exp(), 1e-12)
+            elif dist == "poisson":
+                m = D(float(par[0])); exact[key] = (lambda kk, m=m: (-m).exp() * m ** kk / D(math.factorial(kk)), 1e-12)
+            elif dist == "power_law":
+                al = float(par[0]); Z = zeta_exact(al)
+                k0 = int(math.floor(10 ** (6.0 / al))) + 1
+                while k0 > 1 and (k0 - 1) ** (-al) < TOL_SERIES:
+                    k0 -= 1
+                while k0 ** (-al) >= TOL_SERIES:
+                    k0 += 1
+                tau = powersum_tail_from(al, k0) if k0 >= 10 else Z - sum((D(j).ln() * -D(al)).exp() for j in range(1, k0))
+                exact[key] = (lambda kk, al=al, Z=Z: (D(kk).ln() * -D(al)).exp() / Z, float(D("1.5") * tau / Z) + 1e-12)
+            else:
+                al, ka = float(par[0]), float(par[1])
+                terms = list(polylog_terms(al, ka))
+                L = sum(t for _, t in terms)
+                tau = sum(t for _, t in terms if t < D(TOL_SERIES))
+                tab = dict(terms)
+                exact[key] = (lambda kk, tab=tab, L=L, al=al, ka=ka: (tab[kk] if kk in tab else (-(D(kk) / D(ka)) - D(al) * D(kk).ln()).exp()) / L,
+                              float(D("1.5") * tau / L) + 2e-11)
+        f, tol = exact[key]
+        e = f(k)
+        res.count("history_evaluations")
+        if not (v >= 0) or abs(D(v) - e) > D(tol) * e + D("1e-300"):
+            res.violate("value-depends-on-what-was-created-or-evaluated-before(or differs from the exact pmf)", dist=dist, params=par, k=k, got=v, exact=float(e), tol=tol,
+                        created=[(d, q) for d, q, _ in objs])
+            return
+
+
 def run_case(case):
     res = Result()
+    if case["dist"] == "history":
+        run_history(res, case["params"][0])
+        res.nontrivial = True
+        res.digest = digest(["history", case["params"]])
+        res.sample = {"dist": "history", "seed": case["params"][0]}
+        return res
     check_point(res, case["dist"], case["params"])
     res.nontrivial = True
     res.digest = digest([case["dist"], case["params"]])
